@@ -1,1 +1,81 @@
-fn main(){}
+//! Engine L: in-process property-based testing over join_impl (parser + generator), which is
+//! linked by path from the repository, so cargo rebuilds it whenever /repo changed.
+mod c14;
+mod c15;
+mod c20;
+mod dsl;
+mod evid;
+mod synt;
+
+use proptest::test_runner::{Config, RngAlgorithm, TestRng, TestRunner};
+
+pub fn seed32(seed: u64, salt: u64) -> [u8; 32] {
+    let mut s = [0u8; 32];
+    let mut x = seed ^ salt.wrapping_mul(0x9E37_79B9_7F4A_7C15);
+    for i in 0..4 {
+        x ^= x >> 31;
+        x = x.wrapping_mul(0xBF58_476D_1CE4_E5B9).rotate_left(17).wrapping_add(0x94D0_49BB_1331_11EB + i as u64);
+        s[i * 8..i * 8 + 8].copy_from_slice(&x.to_le_bytes());
+    }
+    s
+}
+
+pub fn new_runner(seed: u64, salt: u64, cases: u32) -> TestRunner {
+    let cfg = Config { cases, failure_persistence: None, max_shrink_iters: 20_000, ..Config::default() };
+    TestRunner::new_with_rng(cfg, TestRng::from_seed(RngAlgorithm::ChaCha, &seed32(seed, salt)))
+}
+
+fn usage() -> ! {
+    eprintln!("usage: jvl check <C14|C15|C20|C10|C13|C16> [--tier quick|thorough] [--seed N] | jvl replay <file>");
+    std::process::exit(2)
+}
+
+fn main() {
+    let args: Vec<String> = std::env::args().collect();
+    if args.len() < 3 {
+        usage();
+    }
+    let mut tier = std::env::var("VERIF_TIER").unwrap_or_else(|_| "quick".to_string());
+    let mut seed: u64 = std::env::var("VERIF_SEED").ok().and_then(|s| s.parse().ok()).unwrap_or(1);
+    let mut i = 3;
+    while i < args.len() {
+        match args[i].as_str() {
+            "--tier" => {
+                tier = args[i + 1].clone();
+                i += 2;
+            }
+            "--seed" => {
+                seed = args[i + 1].parse().unwrap_or(1);
+                i += 2;
+            }
+            _ => usage(),
+        }
+    }
+    if tier != "quick" && tier != "thorough" {
+        tier = "quick".into();
+    }
+    // expansions of malformed input may panic by design of the check: keep stderr quiet
+    std::panic::set_hook(Box::new(|_| {}));
+    let code = match args[1].as_str() {
+        "check" => match args[2].as_str() {
+            "C14" => c14::run(&tier, seed),
+            "C15" => c15::run(&tier, seed),
+            "C20" => c20::run(&tier, seed),
+            "C10" | "C13" | "C16" => synt::run(&args[2], &tier, seed),
+            _ => usage(),
+        },
+        "replay" => {
+            let text = std::fs::read_to_string(&args[2]).expect("replay file");
+            let v: serde_json::Value = serde_json::from_str(&text).expect("replay json");
+            match v["engine"].as_str() {
+                Some("L-c14") => c14::replay(&v),
+                Some("L-c15") => c15::replay(&v),
+                Some("L-c20") => c20::replay(&v),
+                Some("L-synt") => synt::replay(&v),
+                _ => 2,
+            }
+        }
+        _ => usage(),
+    };
+    std::process::exit(code);
+}
